@@ -224,7 +224,13 @@ def build_unit(unit):
         wrap = sc.get('wrap')
         text = woven_rw
         if wrap:
-            text = '%s {\n%s\n}\n' % (wrap, text)
+            # `wrap_lines`: associated-type lines of the trait impl the fn is taken from, copied from the source (each must be
+            # present there literally, checked like a rewrite premise)
+            wl = sc.get('wrap_lines', [])
+            for lit in wl:
+                if canon(lit) not in canon(src):
+                    raise Infra('wrap line %r no longer present in %s' % (lit, sc['file']))
+            text = '%s {\n%s%s\n}\n' % (wrap, ''.join('    %s\n' % l for l in wl), text)
         parts.append((text + '\n', ('item', name, sc)))
         funcs.append({'file': sc['file'], 'item': sc['item'], 'line': it.line(), 'sha256': sha256(src[it.start:it.end])})
     for p in unit.get('postlude', []):
